@@ -819,6 +819,21 @@ func (ex *Exec) callExternal(c *ast.CallExpr, o *types.Func, args []Term, argTyp
 		}
 		ex.note("encoding/json Decode: error iff no complete JSON value can be read (assumed contract A-JSON); decoded value havoc")
 		return []Term{err}
+	case "encoding/json.Decoder.Token":
+		// after a value has been decoded: io.EOF exactly when nothing but blanks follows (assumed contract A-JSON)
+		tok := ex.U.Fresh("jsonToken", SAny)
+		err := ex.U.Fresh("tokenErr", SAny)
+		for _, imp := range ex.F.Pkg.Types.Imports() {
+			if imp.Path() == "io" {
+				if v, ok := imp.Scope().Lookup("EOF").(*types.Var); ok {
+					eof := ex.global(ex.st, v)
+					ex.fact(Not(Eq(eof, Term{"nilAny", SAny})))
+					ex.fact(Eq(Eq(err, eof), ufun("jsonAtEnd", SBool, Term{args[0].S, SInt})))
+				}
+			}
+		}
+		ex.note("encoding/json Token after Decode: io.EOF iff only blanks follow the decoded value (assumed contract A-JSON)")
+		return []Term{tok, err}
 	case "regexp.MustCompile":
 		ex.note("regexp.MustCompile assumed not to panic (constant patterns)")
 		r := ufun("reCompile", SInt, args[0])
